@@ -45,7 +45,7 @@ type c11SrvResult struct {
 }
 
 func c11SpaceServer(c *fw.Ctx) {
-	c.Space("server", "real dns.Server (TsigSecret {k1,k3: A; k2: B}, and the same keys through Server.TsigProvider beside a TsigSecret map of other secrets) on a scripted listener, handler answers through the real dns.Transfer.Out with n = 1..3 envelopes × 5 algorithms × 2 secrets: the query signed by the reference model gives TsigStatus() == nil and every written envelope verifies under the reference as a chain over the query MAC (first: full variables, following: timers only), with the unsigned part = Pack(reply); a second, ordinary signed query on the same connection after the transfer is answered with a reply digested over its own MAC and the full variables; queries signed with another secret / unknown key / over a request MAC / in timers-only mode / unsigned, every single-bit flip and every truncation of the valid query: the handler must not see IsTsig() != nil ∧ TsigStatus() == nil unless the reference accepts, and then no reply may carry a TSIG; non-trivial: every case", true,
+	c.Space("server", "real dns.Server (TsigSecret {k1,k3: A; k2: B}, and the same keys through Server.TsigProvider beside a TsigSecret map of other secrets) on a scripted listener, handler answers through the real dns.Transfer.Out with n = 1..3 envelopes × 5 algorithms × 2 secrets: the query signed by the reference model gives TsigStatus() == nil and every written envelope verifies under the reference as a chain over the query MAC (first: full variables, following: timers only), with the unsigned part = Pack(reply); a second, ordinary signed query on the same connection after the transfer is answered with a reply digested over its own MAC and the full variables; a query with the right MAC and a time far outside the fudge (alone, and behind a good exchange on the same connection) gives the time error, and the reply the handler signs is digested over that request's MAC; queries signed with another secret / unknown key / over a request MAC / in timers-only mode / unsigned, every single-bit flip and every truncation of the valid query: the handler must not see IsTsig() != nil ∧ TsigStatus() == nil unless the reference accepts, and then no reply may carry a TSIG; non-trivial: every case", true,
 		func(emit func(func(*fw.R))) {
 			for _, alg := range c11Algs {
 				for secret := 0; secret < 2; secret++ {
@@ -80,7 +80,9 @@ func c11Server(r *fw.R, alg string, secret, n int, prov bool) {
 			// signed by the server when the query verified
 			m := new(dns.Msg)
 			m.SetReply(req)
-			if t := req.IsTsig(); t != nil && res.status == nil {
+			// signed by the server when the query verified — and when only its time was off: RFC 8945 §5.2.3 has the
+			// server answer BADTIME *signed*, over that request's MAC
+			if t := req.IsTsig(); t != nil && (res.status == nil || errors.Is(res.status, dns.ErrTime)) {
 				m.SetTsig(t.Hdr.Name, t.Algorithm, 300, time.Now().Unix())
 			}
 			w.WriteMsg(m)
@@ -220,6 +222,51 @@ func c11Server(r *fw.R, alg string, secret, n int, prov bool) {
 			if ok, why := rt.Verify(last, lookup, q2mac, false, now); !ok {
 				alt, _ := rt.Verify(last, lookup, q2mac, true, now)
 				r.Fail("server/reuse/reply-mac", "the reply to a signed query that follows a transfer on the same connection does not verify over that query's MAC with the full variables (%s); it verifies in timers-only mode: %v; %s; reply %s", why, alt, ctx, c11Hex(last))
+			}
+		}
+	}
+	// a query whose MAC is right and whose time is far outside the fudge (TsigStatus is the time error), alone on a
+	// connection and behind a good exchange on the same connection: a reply the handler signs is digested over the MAC
+	// of the request it answers, with the full variables — not over nothing, and not over what the connection carried before
+	{
+		q2 := new(dns.Msg)
+		q2.SetQuestion("example.", dns.TypeSOA)
+		q2.Id = 0x1235
+		q2body, _ := q2.Pack()
+		rec2 := rec
+		rec2.OrigID = 0x1235
+		good2, _, _ := rt.Sign(q2body, rec2, raw[c11K1], nil, false)
+		q3 := new(dns.Msg)
+		q3.SetQuestion("example.", dns.TypeSOA)
+		q3.Id = 0x1236
+		q3body, _ := q3.Pack()
+		rec3 := rec
+		rec3.OrigID = 0x1236
+		rec3.Time = rec.Time - 100000
+		stale3, q3mac, _ := rt.Sign(q3body, rec3, raw[c11K1], nil, false)
+		for _, first := range [][]byte{nil, good2} {
+			var res *c11SrvResult
+			var now uint64
+			want := 1
+			if first == nil {
+				res, now = exchangeN(stale3)
+			} else {
+				res, now = exchangeN(first, stale3)
+				want = 2
+			}
+			what := fmt.Sprintf("a query signed %d s ago (MAC correct), %d-th on its connection", 100000, want)
+			if !errors.Is(res.status, dns.ErrTime) {
+				r.Fail("server/stale-time/status", "%s: TsigStatus() = %v, want the time error; %s", what, res.status, ctx)
+				continue
+			}
+			if len(res.written) != want {
+				r.Fail("server/stale-time/reply-count", "%s: %d replies written, want %d; %s", what, len(res.written), want, ctx)
+				continue
+			}
+			last := res.written[want-1]
+			if ok, why := rt.Verify(last, lookup, q3mac, false, now); !ok {
+				overNothing, _ := rt.Verify(last, lookup, nil, false, now)
+				r.Fail("server/stale-time/reply-mac", "%s: the signed reply does not verify over that request's MAC with the full variables (%s); it verifies over an empty request MAC: %v; %s; reply %s", what, why, overNothing, ctx, c11Hex(last))
 			}
 		}
 	}
